@@ -116,6 +116,41 @@ func casesC14(g *Gen) []*Case {
 		t.files["tpl/p.tw"] = `{{ b = "s" }}{{ a = "t" }}@component("~c", {b: 1, a: 2})`
 		addRepeated("several_failing_component_args", t, []string{opNew("tpl", ".tw", "", false)}, opStr("p", nil), "String(p): component with two re-typed arguments")
 	}
+	// the same failing render repeated with other calls in between
+	{
+		t := c16Tree()
+		for _, name := range []string{"bad", "missing", "blog/post", "home"} {
+			for k := 0; k < copies; k++ {
+				ops := []string{opNew("tpl", ".tw", "", k%2 == 1)}
+				var idx []int
+				for i := 0; i < reps/2; i++ {
+					idx = append(idx, len(ops))
+					ops = append(ops, opStr(name, gvMap("who", gvStr("w"), "xs", gvList(gvInt(1), gvInt(2)))))
+					switch i % 4 {
+					case 0:
+						ops = append(ops, opEvs("{{ 1 }}", nil))
+					case 1:
+						ops = append(ops, opResp("bad", nil))
+					case 2:
+						ops = append(ops, opEvf("files/f.tw", nil))
+					default:
+						ops = append(ops, opStr("home", nil))
+					}
+				}
+				c := histCase("interleaved_repeats", t, ops, "String("+name+") repeated with EvaluateString / Response / EvaluateFile / String(home) in between")
+				c.Oracle = func(c *Case, impl string) string {
+					rs := results(impl)
+					for _, i := range idx {
+						if i < len(rs) && rs[i] != rs[idx[0]] {
+							return fmt.Sprintf("the same render gave %s first and %s later", describe(rs[idx[0]]), describe(rs[i]))
+						}
+					}
+					return ""
+				}
+				cs = append(cs, c)
+			}
+		}
+	}
 	// random programs and trees: every render repeated
 	for i := 0; i < g.scale(150, 4000); i++ {
 		sc := stdScope()
@@ -166,7 +201,7 @@ func casesC16(g *Gen) []*Case {
 	cfgs := []string{opNew("tpl", ".tw", "", false), opNew("tpl", ".tw", "err", false), opNew("tpl", ".tw", "", true), opNew("./tpl/", ".tw", "nosuchpage", false)}
 	mk := func(fam string, cfg string, hist []int, x int) {
 		var seq []string
-		seq = append(seq, cfg)
+		seq = append(seq, cfg, ops[x])
 		var note []string
 		for _, h := range hist {
 			seq = append(seq, ops[h])
@@ -174,11 +209,14 @@ func casesC16(g *Gen) []*Case {
 		}
 		at := len(seq)
 		seq = append(seq, ops[x], opReset(), cfg, ops[x])
-		c := histCase(fam, c16Tree(), seq, "NewTemplate; ops "+strings.Join(note, ",")+"; then op "+strconv.Itoa(x)+" = "+ops[x]+"; reset; NewTemplate; the same op")
+		c := histCase(fam, c16Tree(), seq, "NewTemplate; the op; ops "+strings.Join(note, ",")+"; then op "+strconv.Itoa(x)+" = "+ops[x]+"; reset; NewTemplate; the same op")
 		c.Oracle = func(c *Case, impl string) string {
 			rs := results(impl)
 			if len(rs) != at+4 {
 				return "missing answers: " + clip(impl, 200)
+			}
+			if rs[at] != rs[1] {
+				return fmt.Sprintf("issued first the operation returned %s, after the history it returned %s", describe(rs[1]), describe(rs[at]))
 			}
 			if rs[at] != rs[at+3] {
 				return fmt.Sprintf("after the history the operation returned %s, issued first in a fresh state it returns %s", describe(rs[at]), describe(rs[at+3]))
@@ -570,4 +608,50 @@ func lastField(s string) string {
 		return ""
 	}
 	return f[len(f)-1]
+}
+
+// ---------------------------------------------------------------------------------------------
+// C15
+
+func casesC15(g *Gen) []*Case {
+	var cs []*Case
+	d1 := gvMap("who", gvStr("Ann"), "xs", gvList(gvInt(1), gvInt(2), gvInt(3)))
+	d2 := gvMap("who", gvStr("Bo"), "xs", gvList(gvInt(1)))
+	pool := []string{
+		opStr("home", d1), opStr("home", d2), opStr("bad", d1), opStr("missing", nil), opStr("blog/post", nil), opStr("withlayout", d1), opStr("loops", nil), opStr("comp", d1),
+		opResp("home", d1), opResp("bad", d1), opResp("missing", nil), opResp("blog/post", d2),
+		opEvs("{{ who }}! @each(x in xs){{ x * 2 }}@end", d1), opEvs("{{ 1 + }}", nil), opEvs("{{ nosuch }}", nil), opEvs(`{{ [1, 2, 3, 4, 5].shuffle().len() }}{{ "a".echo(1) }}`, nil),
+		opEvf("files/f.tw", d1), opEvf("files/none.tw", nil), opStr("sh", nil),
+	}
+	n := g.scale(24, 400)
+	for i := 0; i < n; i++ {
+		t := c16Tree()
+		t.files["tpl/components/c.tw"] = "<c>{{ t }}@slot</c>"
+		t.files["tpl/comp.tw"] = `@each(x in xs)@component("~c", {t: who})@slot {{ x }}@end@end@end`
+		t.files["tpl/sh.tw"] = `{{ [1, 2, 3, 4, 5, 6, 7, 8].shuffle().len() }}`
+		cfg := []string{opNew("tpl", ".tw", "", false), opNew("tpl", ".tw", "err", false), opNew("tpl", ".tw", "", true)}[i%3]
+		k := 3 + g.n(6)
+		var work []string
+		for j := 0; j < k; j++ {
+			work = append(work, pool[g.n(len(pool))])
+		}
+		G := []int{2, 4, 8, 16}[i%4]
+		procs := []int{1, 2, 16}[i%3]
+		rounds := g.scale(30, 100)
+		fields := []string{t.term(), strconv.Itoa(G), strconv.Itoa(rounds), strconv.Itoa(procs), cfg, opReg("str", "echo", 0), "--"}
+		fields = append(fields, work...)
+		c := &Case{Kind: "conc", Fields: fields, Family: "concurrent_renders", NoModel: true,
+			Note: fmt.Sprintf("%d goroutines x %d rounds, GOMAXPROCS=%d, setup %s, ops %s", G, rounds, procs, cfg, strings.Join(work, " "))}
+		c.Tags = []string{fmt.Sprintf("G%d", G), fmt.Sprintf("P%d", procs)}
+		c.Oracle = func(c *Case, impl string) string {
+			if strings.HasPrefix(impl, "CONC ok") {
+				return ""
+			}
+			return "concurrent calls did not behave like the same calls run alone: " + clip(impl, 600)
+		}
+		cs = append(cs, c)
+		// the same operations, sequentially, against the model
+		cs = append(cs, histCase("sequential_baseline", t, append([]string{cfg, opReg("str", "echo", 0)}, work...), "the operations of the workload, run alone"))
+	}
+	return cs
 }
